@@ -81,6 +81,13 @@ extern uint64_t g_in_expected; extern size_t g_in_appended;
 #define tcp_incoming_append(self, pkt) do { \
     __CPROVER_assert((pkt).seq_nr == g_in_expected, "[C05.inorder] a packet is appended to the receive stream only when it carries the next expected sequence number"); \
     g_in_expected = g_in_expected + 1; g_in_appended = g_in_appended + 1; pl_push_back(&(self)->m_incoming_queue, (pkt)); } while (0)
+/* m_outgoing_packets.front(): the retransmission queue only ever receives packets from packet_dropped(), whose
+ * precondition is PKT_VALID and which removes the packet's sequence number from the outstanding map ([C06.flight]).
+ * ASSUMED element invariant of that queue (a quantified fact the pointwise contracts cannot carry across calls):
+ * every element is a valid segment of this connection that is not outstanding. */
+#define RESEND_OK(self, pk) (PKT_VALID(pk) && (pk).bufsz <= SEG_MAX && (pk).seq_nr < (self)->m_next_outgoing_seq && ROUTE_OK((pk).hops) && \
+   ((pk).seq_nr >= (self)->m_outstanding_packet_sizes.bound || ((pk).seq_nr == G_k && (self)->m_outstanding_packet_sizes.has_G == 0)))
+#define tcp_resend_front(self) (pl_front_assume_resend(self))
 /* route::replace_last(forwarder) */
 extern size_t g_replace_last_calls; extern struct sink_forwarder *g_replace_last_fwd;
 static inline void route_replace_last(route_t *r, struct sink_forwarder *f)
